@@ -350,6 +350,10 @@ def check_case(ctx, case):
             continue
         if rel not in texts_l or isinstance(speed, (list, tuple)) or not xs_:
             continue
+        if getattr(ctx, 'leaf_budget', 600) <= 0:
+            ctx.count('leaf.model', 'skipped (per-run cap of 600 files reached)')
+            continue
+        ctx.leaf_budget = getattr(ctx, 'leaf_budget', 600) - 1
         leaves.append((rel, len(reqs)))
         reqs.append({'op': 'ctl.run', 'text': texts_l[rel], 'instrs': True})
         reqs.append({'op': 'c06.leaf', 'cfg': mcfg, 'pts': [[q(a), q(b)] for a, b in zip(xs_, ys_)], 'speed': q(float(speed)), 'decel': dec})
